@@ -233,7 +233,7 @@ impl Property for C22 {
         ]
     }
     fn cases(&self, tier: Tier) -> u32 {
-        tier.pick(60_000, 2_000_000)
+        tier.pick(300_000, 2_000_000)
     }
     fn strategy(&self, tier: Tier) -> BoxedStrategy<Case> {
         texts::small_text(tier.pick(8, 10), tier.pick(12, 16)).prop_map(|text| Case { text }).boxed()
